@@ -4,6 +4,7 @@
 // decoded content must be the Engine layout the snapshot prescribes (predicted here, independently of the library's
 // convert_* helpers): slots, labels, offsets, the order of the colour channels, main cue, grid markers, rate / count / loudness.
 #include <algorithm>
+#include <array>
 #include <functional>
 #include <optional>
 #include "c02_stored.hpp"
@@ -44,8 +45,20 @@ dj::track_snapshot variant(int v, bool v2, int n)
         s.sample_count = 480000;
         s.key = dj::musical_key::f_major;
     }
+    // a waveform of the size the library recommends for this generation (1024 overview points on 2.x, the high-resolution
+    // extent on 1.x), with a non-monotone pattern and, on 1.x, opacities that differ from the values
+    if (s.sample_count && s.sample_rate)
+    {
+        auto ext = v2 ? eng::calculate_overview_waveform_extents(*s.sample_count, *s.sample_rate) : eng::calculate_high_resolution_waveform_extents(*s.sample_count, *s.sample_rate);
+        s.waveform.clear();
+        for (unsigned long long i = 0; i < ext.size; ++i)
+        {
+            uint8_t a = (uint8_t)((i * 37 + v) % 251), b = (uint8_t)((i * 91 + 3) % 241), c = (uint8_t)((i * 13 + 7) % 239);
+            if (v2) s.waveform.push_back({{a}, {b}, {c}});
+            else s.waveform.push_back({{a, (uint8_t)(255 - a)}, {b, (uint8_t)(b / 2)}, {c, (uint8_t)(c ^ 0x55)}});
+        }
+    }
     if (v == 4) { s.hot_cues.assign(3, std::nullopt); s.hot_cues[2] = dj::hot_cue{"short list", 5.0, dj::pad_color{9, 8, 7, 6}}; s.loops.clear(); s.main_cue.reset(); }
-    (void)v2;
     return s;
 }
 }  // namespace
@@ -67,6 +80,9 @@ void write_by_path(World& w, int path, const dj::track_snapshot& s, int other_va
         [&] { t.set_hot_cues(s.hot_cues); },         [&] { t.set_loops(s.loops); }};
     if (path == 3) std::reverse(setters.begin(), setters.end());
     for (auto& f : setters) f();
+    // the waveform last in both orders: its stored samples-per-point belongs to the count and rate in force when it is written
+    // (2.x does not re-derive it when the count changes later, 1.x does; neither is prescribed by the statement)
+    t.set_waveform(s.waveform);
 }
 
 void run_stored(World& w, Agg& a)
@@ -175,6 +191,65 @@ void run_stored(World& w, Agg& a)
                 else if (ref::bits(td.sample_rate) != ref::bits(s.sample_rate.value_or(0)) || td.samples != (int64_t)s.sample_count.value_or(0) || ref::bits(td.loudness) != ref::bits(s.average_loudness.value_or(0)) ||
                          td.key != (s.key ? (int32_t)*s.key : 0))
                 { ok = false; viol("trackData_content", "stored rate " + d(td.sample_rate) + " samples " + std::to_string(td.samples) + " loudness " + d(td.loudness) + " key " + std::to_string(td.key)); }
+            }
+        }
+        // ---- waveforms
+        {
+            auto wrows = w.v2 ? w.query("SELECT overviewWaveFormData FROM Track WHERE id = " + std::to_string(t.id()))
+                              : w.query("SELECT overviewWaveFormData, highResolutionWaveFormData FROM perfdata.PerformanceData WHERE id = " + std::to_string(t.id()));
+            const unsigned long long cnt = s.sample_count.value_or(0);
+            const double rate = s.sample_rate.value_or(0);
+            const auto oext = eng::calculate_overview_waveform_extents(cnt, rate);
+            Bytes payload;
+            ref::Overview ov;
+            if (wrows.size() != 1 || !ref::unframe(unx(wrows[0][0]), payload, &why) || !ref::decode(payload, ov, &why)) { ok = false; viol("overviewWaveform_unreadable", why); }
+            else if (s.waveform.empty() || oext.size == 0)
+            {
+                if (!ov.points.empty()) { ok = false; viol("overviewWaveform_points", "stored " + std::to_string(ov.points.size()) + " overview points for a track without a usable waveform"); }
+            }
+            else
+            {
+                if (ov.points.size() != oext.size) { ok = false; viol("overviewWaveform_points", "stored " + std::to_string(ov.points.size()) + " overview points, the recommended extent is " + std::to_string(oext.size)); }
+                if (ref::bits(ov.samples_per_point) != ref::bits(oext.samples_per_entry)) { ok = false; viol("overviewWaveform_samples_per_point", "stored " + d(ov.samples_per_point) + " samples per point, the extent prescribes " + d(oext.samples_per_entry)); }
+                std::array<uint8_t, 3> mx{{0, 0, 0}};
+                for (auto& p : ov.points)
+                    for (int k = 0; k < 3; ++k) mx[k] = std::max(mx[k], p[k]);
+                if (mx != ov.maximum) { ok = false; viol("overviewWaveform_maximum", "the stored maximum point is not the maximum of the stored points"); }
+                // content: identity when the snapshot has exactly the recommended number of entries; otherwise every stored point
+                // must be the values of some entry of the snapshot's waveform, at non-decreasing positions
+                size_t pos = 0;
+                for (size_t i = 0; i < ov.points.size() && ok; ++i)
+                {
+                    auto is = [&](size_t j) { auto& e = s.waveform[j]; return ov.points[i] == std::array<uint8_t, 3>{{e.low.value, e.mid.value, e.high.value}}; };
+                    if (s.waveform.size() == ov.points.size()) { if (!is(i)) { ok = false; viol("overviewWaveform_content", "overview point " + std::to_string(i) + " differs from the waveform entry it was given"); } }
+                    else
+                    {
+                        while (pos < s.waveform.size() && !is(pos)) ++pos;
+                        if (pos == s.waveform.size()) { ok = false; viol("overviewWaveform_content", "overview point " + std::to_string(i) + " is not taken from the waveform in order"); }
+                    }
+                }
+            }
+            if (!w.v2 && wrows.size() == 1)
+            {
+                const auto hext = eng::calculate_high_resolution_waveform_extents(cnt, rate);
+                ref::HighRes hr;
+                if (!ref::unframe(unx(wrows[0][1]), payload, &why) || !ref::decode(payload, hr, &why)) { ok = false; viol("highResWaveform_unreadable", why); }
+                else
+                {
+                    if (hr.points.size() != s.waveform.size()) { ok = false; viol("highResWaveform_points", "stored " + std::to_string(hr.points.size()) + " high-resolution points, the snapshot has " + std::to_string(s.waveform.size())); }
+                    else
+                        for (size_t i = 0; i < hr.points.size(); ++i)
+                        {
+                            auto& e = s.waveform[i];
+                            if (hr.points[i] != std::array<uint8_t, 6>{{e.low.value, e.mid.value, e.high.value, e.low.opacity, e.mid.opacity, e.high.opacity}})
+                            { ok = false; viol("highResWaveform_content", "high-resolution point " + std::to_string(i) + " differs from the entry given (values, then opacities)"); break; }
+                        }
+                    if (!s.waveform.empty() && ref::bits(hr.samples_per_point) != ref::bits(hext.samples_per_entry)) { ok = false; viol("highResWaveform_samples_per_point", "stored " + d(hr.samples_per_point) + " samples per point, the extent prescribes " + d(hext.samples_per_entry)); }
+                    std::array<uint8_t, 6> mx{{0, 0, 0, 0, 0, 0}};
+                    for (auto& p : hr.points)
+                        for (int k = 0; k < 6; ++k) mx[k] = std::max(mx[k], p[k]);
+                    if (mx != hr.maximum) { ok = false; viol("highResWaveform_maximum", "the stored maximum point is not the maximum of the stored points"); }
+                }
             }
         }
         if (ok) { a.count("validated"); a.count("stored_validated"); }
